@@ -246,9 +246,8 @@ class Polylist(primitive.Primitive):
         """
 
         if self._triangleset is None:
-            indexselector = numpy.zeros(self.nvertices) == 0
-            indexselector[self.polyindex[:, 1] - 1] = False
-            indexselector[self.polyindex[:, 1] - 2] = False
+            # a corner starts a fan triangle when two more corners of its own polygon follow it
+            indexselector = numpy.arange(self.nvertices) + 2 < numpy.repeat(self.polyends, self.vcounts)
             indexselector = numpy.arange(self.nvertices)[indexselector]
 
             firstpolyindex = numpy.arange(self.nvertices)
